@@ -204,7 +204,15 @@ def length_obligations(ctx, rep, rule):
         h = prog.resolve_method(P, "handle")
         if h is None or (h.cls is not P and P is not gp):
             continue
-        w = Walker(prog, ctx.resolver, assumptions={"handler.isdir()": TRUTHY})
+        def _driver(fn, t, d):
+            # helpers of handle() that carry part of the response logic (status line, menu/document decision)
+            return d < 3 and t.bound_cls is not None and fn.name not in ("writedir", "gethandler", "filenotfound", "log") and any(
+                isinstance(x, ast.Attribute) and x.attr in ("getsize", "isdir") for x in ast.walk(fn.node))
+
+        def _isdir(val):
+            return lambda call, target, st: val if isinstance(call.func, ast.Attribute) and call.func.attr == "isdir" and not call.args else None
+
+        w = Walker(prog, ctx.resolver, call_value=_isdir(TRUTHY), inline=_driver)
         problems = set()
         n = 0
         for p in w.run(h, P):
@@ -213,7 +221,7 @@ def length_obligations(ctx, rep, rule):
                     n += 1
                     if any(isinstance(x, ast.Attribute) and x.attr in ("getsize", "size") for a in e.node.args for x in ast.walk(a)):
                         problems.add("a generated menu is announced with the entry's size instead of the unknown-length marker")
-        w2 = Walker(prog, ctx.resolver, assumptions={"handler.isdir()": FALSY})
+        w2 = Walker(prog, ctx.resolver, call_value=_isdir(FALSY), inline=_driver)
         sized = False
         for p in w2.run(h, P):
             for e in p.calls():
@@ -325,7 +333,20 @@ def mime_table_obligations(ctx, rep, rule):
             ctx.where(f), "; ".join(sorted(problems)), key=f"{rule}|init_mimetypes")
     # run by start-up
     init = next((x for x in prog.all_functions() if x.qualname == "initialization.initialize"), None)
-    called = init is not None and any(isinstance(n, ast.Call) and (dotted(n.func) or "").split(".")[-1] == "init_mimetypes" for n in ast.walk(init.node))
+    called = False
+    seen, work = set(), [init] if init is not None else []
+    while work and not called:
+        g = work.pop()
+        if g in seen:
+            continue
+        seen.add(g)
+        for n in ast.walk(g.node):
+            if isinstance(n, ast.Call):
+                t = ctx.resolver.resolve(n, g, None)
+                if t.kind == "repo" and f in t.funcs:
+                    called = True
+                elif t.kind == "repo" and not t.by_name:
+                    work.extend(h2 for h2 in t.funcs if h2.module is init.module and h2.cls is None)
     rep.add(rule, "start-up sequence runs init_mimetypes", called, ctx.where(init) if init else "pygopherd/initialization.py",
             "" if called else "initialize() no longer calls init_mimetypes(): the configured tables are never installed", key=f"{rule}|startup")
 
